@@ -36,6 +36,16 @@
 #include <random>
 #include <vector>
 
+#ifdef TLX_VERIF
+//! verification hook: protocol events of the sort steps, provided by the harness
+namespace tlx {
+void verif_event(const char* kind, const void* step, const void* arg);
+} // namespace tlx
+#define TLX_VERIF_EVENT(kind, step, arg) ::tlx::verif_event(kind, step, arg)
+#else
+#define TLX_VERIF_EVENT(kind, step, arg) do { } while (0)
+#endif
+
 namespace tlx { namespace sort_strings_detail {
 
 class PS5SortStep;
@@ -190,6 +200,7 @@ protected:
     //! Register new substep
     void substep_add()
     {
+        TLX_VERIF_EVENT("add", this, nullptr);
         ++substep_working_;
     }
 
@@ -198,6 +209,7 @@ public:
     void substep_notify_done()
     {
         assert(substep_working_ > 0);
+        TLX_VERIF_EVENT("done", this, nullptr);
         if (--substep_working_ == 0)
             substep_all_done();
     }
@@ -319,6 +331,7 @@ public:
                     size_t depth)
         : ctx_(ctx), pstep_(pstep), strptr_(strptr), depth_(depth)
     {
+        TLX_VERIF_EVENT("create", static_cast<PS5SortStep*>(this), pstep);
         TLX_LOGC(ctx_.debug_steps)
             << "enqueue depth=" << depth_ << " size=" << strptr_.size()
             << " flip=" << strptr_.flipped();
@@ -335,6 +348,7 @@ public:
 
     void run()
     {
+        TLX_VERIF_EVENT("touch", static_cast<PS5SortStep*>(this), nullptr);
         mtimer_.start("sequ_ss");
 
         size_t n = strptr_.size();
@@ -1157,6 +1171,7 @@ public:
 
     void substep_all_done() final
     {
+        TLX_VERIF_EVENT("alldone", static_cast<PS5SortStep*>(this), nullptr);
         TLX_LOGC(ctx_.debug_recursion)
             << "SmallSort[" << depth_ << "] "
             << "all substeps done -> LCP calculation";
@@ -1175,8 +1190,10 @@ public:
             ss_stack_[--ss_front_].calculate_lcp(ctx_);
         }
 
+        TLX_VERIF_EVENT("notify", static_cast<PS5SortStep*>(this), pstep_);
         if (pstep_ != nullptr)
             pstep_->substep_notify_done();
+        TLX_VERIF_EVENT("delete", static_cast<PS5SortStep*>(this), nullptr);
         delete this;
     }
 };
@@ -1239,6 +1256,7 @@ public:
         bkt_.resize(parts_);
         bktcache_.resize(parts_);
 
+        TLX_VERIF_EVENT("create", static_cast<PS5SortStep*>(this), pstep);
         psize_ = (strptr.size() + parts_ - 1) / parts_;
 
         TLX_LOGC(ctx_.debug_steps)
@@ -1259,6 +1277,7 @@ public:
 
     void sample()
     {
+        TLX_VERIF_EVENT("touch", static_cast<PS5SortStep*>(this), nullptr);
         ScopedMultiTimer smt(ctx_.mtimer, "para_ss");
         TLX_LOGC(ctx_.debug_jobs) << "Process SampleJob @ " << this;
 
@@ -1292,6 +1311,7 @@ public:
 
     void count(unsigned int p)
     {
+        TLX_VERIF_EVENT("touch", static_cast<PS5SortStep*>(this), nullptr);
         ScopedMultiTimer smt(ctx_.mtimer, "para_ss");
         TLX_LOGC(ctx_.debug_jobs) << "Process CountJob " << p << " @ " << this;
 
@@ -1320,6 +1340,7 @@ public:
 
     void count_finished()
     {
+        TLX_VERIF_EVENT("touch", static_cast<PS5SortStep*>(this), nullptr);
         ScopedMultiTimer smt(ctx_.mtimer, "para_ss");
         TLX_LOGC(ctx_.debug_jobs)
             << "Finishing CountJob " << this << " with prefixsum";
@@ -1352,6 +1373,7 @@ public:
 
     void distribute(unsigned int p)
     {
+        TLX_VERIF_EVENT("touch", static_cast<PS5SortStep*>(this), nullptr);
         ScopedMultiTimer smt(ctx_.mtimer, "para_ss");
         TLX_LOGC(ctx_.debug_jobs)
             << "Process DistributeJob " << p << " @ " << this;
@@ -1385,6 +1407,7 @@ public:
 
     void distribute_finished()
     {
+        TLX_VERIF_EVENT("touch", static_cast<PS5SortStep*>(this), nullptr);
         TLX_LOGC(ctx_.debug_jobs)
             << "Finishing DistributeJob " << this << " with enqueuing subjobs";
 
@@ -1491,6 +1514,7 @@ public:
 
     void substep_all_done() final
     {
+        TLX_VERIF_EVENT("alldone", static_cast<PS5SortStep*>(this), nullptr);
         ScopedMultiTimer smt(ctx_.mtimer, "para_ss");
         if (strptr_.with_lcp)
         {
@@ -1502,8 +1526,10 @@ public:
             bkt_[0].destroy();
         }
 
+        TLX_VERIF_EVENT("notify", static_cast<PS5SortStep*>(this), pstep_);
         if (pstep_ != nullptr)
             pstep_->substep_notify_done();
+        TLX_VERIF_EVENT("delete", static_cast<PS5SortStep*>(this), nullptr);
         delete this;
     }
 };
